@@ -157,7 +157,8 @@ func doReq(tl *ratelimit.TokenLimiter, served *int, source string, amount int64)
 	before := *served
 	rec := httptest.NewRecorder()
 	req := httptest.NewRequest("GET", "http://x/", nil)
-	req.Header.Set("Source", source)
+	// on the wire the source identifier is a long opaque token (a bearer token, a session cookie): 300 bytes
+	req.Header.Set("Source", source+strings.Repeat("-0123456789abcdef", 18)[:299])
 	req.Header.Set("Amount", fmt.Sprint(amount))
 	tl.ServeHTTP(rec, req)
 	return outcome{rec.Code, rec.Header().Get("X-Retry-In"), *served > before}
@@ -484,6 +485,8 @@ func configs(tier string) []config {
 	out = append(out, config{name: "1s:4000/2@0s", rates: []rateSpec{{S, 4000, 2}}, magnitudes: true})
 	// a deep burst (more than ten times the average): waits of more than ten periods are advertised
 	out = append(out, config{name: "1s:1/12@0s", rates: []rateSpec{{S, 1, 12}}, extraAmounts: []int64{11}, c13only: true})
+	// a ladder of six rates (more buckets are debited by one request than any small fixed number)
+	out = append(out, config{name: "six-rates@0s", rates: []rateSpec{{S, 1, 1}, {10 * S, 2, 2}, {20 * S, 2, 2}, {30 * S, 2, 2}, {40 * S, 2, 2}, {50 * S, 2, 2}}, c13only: true})
 	// large magnitudes: an hourly quota of 36 million units (one token every 100 microseconds), requests of millions
 	out = append(out, config{name: "1h:36000000/36000000@0s", rates: []rateSpec{{3600 * S, 36_000_000, 36_000_000}}, extraAmounts: []int64{3_000_000, 9_000_000}, magnitudes: true})
 	out = append(out, config{name: "2s:1/2@300ms+Capacity(2)", rates: sets[4].rates, phase: 300 * time.Millisecond, capacity: 2})
